@@ -176,6 +176,86 @@ def check_replace(nd: t.Any, v0: t.Any, ctx: Ctx) -> None:
                 return
 
 
+# ---- a variant with a converter of its own -----------------------------------------------------------------------------------
+#
+# A tagged union adds the tag around / into what the variant's converter writes.  A user's converter may hand out a mapping the
+# value itself holds (as the built-in converter for Any hands out the value): the union must not write into it.
+
+_HC: t.Dict[str, t.Any] = {}
+
+
+def hasconv_cases(shard: int, nshards: int) -> t.Iterator[t.Any]:
+    i = 0
+    for lay in ('internal', 'external', 'adjacent'):
+        for where in ('bare', 'List', 'field', 'Optional'):
+            for mk in ('OrderedDict', 'dict', 'MyMap'):
+                if i % nshards == shard:
+                    yield [lay, where, mk]
+                i += 1
+
+
+def check_hasconv(case: t.Any, ctx: Ctx) -> None:
+    import pane
+    from pane.annotations import Tagged
+    from pane.converters import Converter
+    from pane.errors import ParseInterrupt, WrongTypeError
+    (lay, where, mk) = case
+    if 'Props' not in _HC:
+        class PropsConv(Converter):      # type: ignore
+            def expected(self, plural: bool = False) -> str:
+                return 'properties'
+
+            def try_convert(self, val: t.Any) -> t.Any:
+                if isinstance(val, _HC['Props']):
+                    return val
+                if not tg.is_map(val):
+                    raise ParseInterrupt()
+                return _HC['Props'](collections.OrderedDict(val))
+
+            def collect_errors(self, val: t.Any) -> t.Any:
+                return None if (tg.is_map(val) or isinstance(val, _HC['Props'])) else WrongTypeError(self.expected(), val)
+
+            def into_data(self, val: t.Any) -> t.Any:
+                return val.d          # the mapping the value holds
+
+        class Props:
+            kind = 'props'
+
+            def __init__(self, d: t.Any) -> None:
+                self.d = d
+
+            @classmethod
+            def _converter(cls, *args: t.Any, handlers: t.Any = None) -> t.Any:
+                return PropsConv()
+        _HC['Props'] = Props
+        _HC['Point'] = type('Point', (pane.PaneBase,), {'__annotations__': {'x': int, 'kind': t.Literal['point']}, 'kind': 'point'})
+    (Props, Point) = (_HC['Props'], _HC['Point'])
+    ext: t.Any = {'internal': False, 'external': True, 'adjacent': ('t', 'c')}[lay]
+    U = t.Annotated[t.Union[Props, Point], Tagged('kind', external=ext)]
+    held = {'OrderedDict': collections.OrderedDict, 'dict': dict, 'MyMap': codec.MyMap}[mk]([('colour', 'red'), ('width', 2)])
+    x = Props(held)
+    if where == 'bare':
+        (T, v) = (U, x)
+    elif where == 'List':
+        (T, v) = (t.List[U], [x])
+    elif where == 'Optional':
+        (T, v) = (t.Optional[U], x)
+    else:
+        key = ('H', lay)
+        if key not in _HC:
+            _HC[key] = type('HcHolder', (pane.PaneBase,), {'__annotations__': {'p': U}})
+        (T, v) = (_HC[key], _HC[key].make_unchecked(p=x))
+    ctx.label(f"layout:{lay}", where, mk)
+    ctx.nontrivial(True)
+    before = (type(held).__name__, list(held.items()))
+    ctx.evaluated()
+    (k, d) = outcome(lambda: pane.into_data(v, T))
+    after = (type(x.d).__name__, list(x.d.items()))
+    if x.d is not held or after != before:
+        ctx.fail('input-unchanged', f"into_data/variant-converter:{lay}", f"a variant whose own converter writes the mapping it holds ({mk} {dict(before[1])}), {lay}ly tagged, {where}: "
+                 f"after into_data ({k}) the value holds {after[0]} {dict(after[1])}")
+
+
 def _inserting() -> t.Any:
     # mapping-shaped targets (struct literals, Dict / Mapping, dataclasses) first, then the whole grammar
     sc = tg.type_specs(2)
@@ -198,5 +278,6 @@ def suites(tier: str) -> t.List[Suite]:
         Suite('nomutate', check, strategy=lambda: gen.conv_cases(gen.all_type_specs(leaves)), examples=8000 if big else 600,
               budget_s=480 if big else 40, render=gen.render_case),
         Suite('inserting-maps', check, strategy=_inserting, examples=4000 if big else 300, budget_s=200 if big else 20, render=gen.render_case),
+        Suite('variant-converter', check_hasconv, cases=hasconv_cases, exhaustive=True, budget_s=30, render=lambda c: {'layout': c[0], 'where': c[1], 'mapping': c[2]}),
         Suite('tagged', check, strategy=_tagged, examples=3000 if big else 250, budget_s=240 if big else 25, render=gen.render_case),
     ]
